@@ -1950,7 +1950,21 @@ fn b_marks(t: &mut Tape) -> (wt::layout::CoverageTable, wt::gpos::MarkArray, usi
     let n = g.len();
     let cov = b_cov_of(t, &g);
     let k = 1 + t.below(n.min(3) as u32) as usize;
-    let recs = (0..n).map(|i| wt::gpos::MarkRecord { mark_class: if i < k { i as u16 } else { t.below(k as u32) as u16 }, mark_anchor: OffsetMarker::new(b_anchor(t)) }).collect();
+    // a quarter of the arrays with two or more classes leave one class (never the last one) without marks, as fonts
+    // with an unused mark class and builders whose marks were all moved to other classes do
+    let hole: Option<usize> = if k >= 2 && t.chance(1, 4) { Some(t.below(k as u32 - 1) as usize) } else { None };
+    if hole.is_some() {
+        t.lab_nd("unused-mark-class");
+    }
+    let recs = (0..n)
+        .map(|i| {
+            let mut c = if i < k { i } else { t.below(k as u32) as usize };
+            if Some(c) == hole {
+                c = k - 1;
+            }
+            wt::gpos::MarkRecord { mark_class: c as u16, mark_anchor: OffsetMarker::new(b_anchor(t)) }
+        })
+        .collect();
     (cov, wt::gpos::MarkArray { mark_records: recs }, k)
 }
 
